@@ -167,6 +167,40 @@ try:
             bad.append(f"join changed its {nm} source (fields, parents or indices)")
 except BaseException as ex:
     bad.append(f"join / source check raised {type(ex).__name__}: {ex}")
+# sources whose atoms were also handed to another, non-copying container (their parent reference points there): still copied faithfully
+_keep = []
+for cls in (ml.Molecule, ml.Structure, ml.Connectivity, ml.ConformerEnsemble):
+    try:
+        src = cls(sample())
+        _keep.append(ml.Promolecule(src.atoms[:0:-1]))
+        cp = cls(src)
+        vs, vc = view(src), view(cp)
+        if vs.get("bonds") != vc.get("bonds") or vs["atoms"] != vc["atoms"]:
+            bad.append(f"{cls.__name__}(x) of a source whose atoms also sit in another container: bonds {vc.get('bonds')} instead of {vs.get('bonds')}")
+    except BaseException as ex:
+        bad.append(f"{cls.__name__}(x) of a source whose atoms also sit in another container raised {type(ex).__name__}: {str(ex)[:70]}")
+# `|` and concatenate with a Conformer operand and with a single part
+try:
+    e2 = ml.ConformerEnsemble(e)
+    for lhs, rhs, nm in ((e2[0], e2[1], "conformer | conformer"), (e2[1], sample(), "conformer | molecule"), (sample(), e2[0], "molecule | conformer")):
+        u = lhs | rhs
+        if u.n_atoms != lhs.n_atoms + rhs.n_atoms or u.n_bonds != lhs.n_bonds + rhs.n_bonds or any(x.parent is not u for x in u.atoms):
+            bad.append(f"{nm}: product has {u.n_atoms} atoms / {u.n_bonds} bonds or foreign atoms")
+        u.coords[0, 0] += 9.0
+        u.atoms[0].label = "edited"
+        if e2.atoms[0].label == "edited" or not np.array_equal(np.array(e2.coords), np.array(e.coords)):
+            bad.append(f"{nm}: editing the product changed the ensemble")
+except BaseException as ex:
+    bad.append(f"`|` with a Conformer operand raised {type(ex).__name__}: {str(ex)[:70]}")
+try:
+    one = ml.Structure(sample())
+    c1 = ml.Structure.concatenate(one)
+    c1.attrib["only-in-product"] = 1
+    c1.atoms[0].attrib["only-in-product"] = 1
+    if "only-in-product" in one.attrib or "only-in-product" in one.atoms[0].attrib or c1.attrib is one.attrib:
+        bad.append("concatenate of a single part: the product shares an attribute dictionary with its source")
+except BaseException as ex:
+    bad.append(f"concatenate of a single part raised {type(ex).__name__}: {str(ex)[:70]}")
 c.atoms[0].attrib["mut"] = 1
 if "mut" in a.atoms[0].attrib:
     bad.append("concatenate: the product's atoms share their attrib dict with the source atoms")
